@@ -141,22 +141,31 @@ def splitComma (b : Bytes) : List Bytes :=
       | [] => [[c]]
       | h :: t => (c :: h) :: t) [[]])
 
-/-- parseTransferEncoding / parseContentLength / parseTrailer at the blank line -/
+/-- `parseTransferEncoding` (parser.go:710-727): absent, or exactly one value equal to `chunked` (trimmed, any case) -/
+def parseTE (p : P) : Except E P :=
+  match p.te with
+  | [] => pure p
+  | [v] =>
+    if (trim v).map toLower ≠ str "chunked" then throw E.badTE
+    else pure { p with te := [], cl := [], chunked := true }
+  | _ :: _ :: _ => throw E.badTE
+
+/-- `parseContentLength` (parser.go:730-765): absent, or the first value with trailing spaces removed through
+    `ParseInt(·, 10, 63)` (an empty value is an error like any other non-numeric one); negative values rejected; every
+    further Content-Length value must be equal to the first (trailing spaces aside) -/
+def parseCL (p : P) : Except E P :=
+  match p.cl with
+  | [] => pure { p with contentLength := -1 }
+  | v :: rest =>
+    if rest.any (fun w => trimRightSpaces w != trimRightSpaces v) then throw E.badCL
+    else match parseCLValue (trimRightSpaces v) with
+      | none => throw E.badCL
+      | some l => if l < 0 then throw E.badCL else pure { p with contentLength := l }
+
+/-- parseTransferEncoding; parseContentLength at the blank line -/
 def endOfHeaders (p : P) : Except E P := do
-  -- transfer encoding
-  let p ← (if p.te = [] then pure p
-    else if p.te.length ≠ 1 then throw E.badTE
-    else if (trim p.te.head!).map toLower ≠ str "chunked" then throw E.badTE
-    else pure { p with te := [], cl := [], chunked := true })
-  -- content length
-  let p ← (match p.cl.head? with
-    | some v =>
-      if v = [] then pure { p with contentLength := -1 }
-      else match parseCLValue (trimRightSpaces v) with
-        | none => throw E.badCL
-        | some l => if l < 0 then throw E.badCL else pure { p with contentLength := l }
-    | none => pure { p with contentLength := -1 })
-  pure p
+  let p ← parseTE p
+  parseCL p
 
 /-- the field names announced by the `Trailer` values (`parseTrailer`): each value is trimmed, split at commas when
     it contains one, the elements trimmed, empty ones dropped, the rest canonicalised -/
